@@ -138,7 +138,7 @@ Proof. exact lex_prev_cont. Qed.
 Print Assumptions C10_lex_roundtrip_previous_continuation.
 
 (* every line of the rendered catalog lexes to its token (the lexer round trip, assembled) *)
-Theorem C10_lex_roundtrip : forall dec sp c, seps_ok sp -> scatalog_ok dec c -> nplurals_le_10 c ->
+Theorem C10_lex_roundtrip : forall dec sp, seps_ok sp -> forall c, scatalog_ok dec c -> nplurals_le_10 c ->
   Forall2 lexes (render_bodies sp c) (toks_catalog_x sp c).
 Proof. exact lexes_catalog. Qed.
 Print Assumptions C10_lex_roundtrip.
